@@ -30,10 +30,12 @@ def _post(seed, quick):
 def run(ctx):
     q = ctx.quick
     mc = [("DecodersGen", "MC_Decoders.cfg", dict(workers=4))]
-    gen = [("DecodersGen", "Gen_Decoders.cfg" if q else "Gen_Decoders_deep.cfg", dict(workers=8, timeout=1500, heap="8g"))]
+    gen = [("DecodersGen", "Gen_Decoders.cfg" if q else "Gen_Decoders_deep.cfg", dict(workers=8, timeout=1500, heap="8g")),
+           # Set-Cookie directives only start at the fifth token: longer walks for that decoder alone
+           ("DecodersGen", "Gen_Decoders_setcookie.cfg" if q else "Gen_Decoders_setcookie_deep.cfg", dict(workers=4, timeout=900))]
     obs, verdicts = standard_pipeline(ctx, sub="decoders", mc=mc, gen=gen, trace=("Trace_Decoders", "Trace_Decoders.cfg"),
                                       random_n=30000 if q else 400000, post_gen=_post(ctx.seed, q), jobs=12, timeout_ms=5000,
-                                      chunk=100000 if q else 250000, trace_timeout=1800, trace_heap="6g")
+                                      chunk=100000 if q else 250000, trace_timeout=1800, trace_heap="6g", checked=True)
     kinds, per = {}, {}
     for o in obs:
         s = o["scn"]
@@ -48,8 +50,8 @@ def run(ctx):
     ctx.extra["panic_sites"] = sites
     return finish(ctx, level="exploration", rule=RULE, exhaustive=False,
                   explanation=("TLA+ contributes the systematic, grammar-complete input space and the totality oracle; undefined behaviour that does not "
-                               "surface as a panic, abort, hang, invalid UTF-8 or an out-of-range slice in a normal (release-like) run is not seen"),
-                  assumptions=["the harness profile is release-like (no debug assertions, no overflow checks): arithmetic wrap-around is only seen through the Max-Age rule",
+                               "surface as a panic, abort, hang, invalid UTF-8 or an out-of-range slice in the release-like run, nor as an overflow / debug-assertion / unsafe-precondition panic in the checked run, is not seen"),
+                  assumptions=["every scenario runs on two builds of the harness: release-like (no debug assertions, no overflow checks) and checked (overflow checks, debug assertions, std's unsafe-precondition checks)",
                                "Cookie header values reach serde_cookie as &str (valid UTF-8); Set-Cookie strings reach from_raw through the public header builder",
                                "path and query inputs are delivered inside a well-formed request line (no space, control byte, '?' or '#')"],
                   trusted=["harness/src/decoders.rs token->bytes table, mutation operator, Probe impls (range check before use, from_utf8 re-validation)",
